@@ -89,8 +89,22 @@ package rendering
 //@   modifies httpOut
 //@   ensures [built-from-the-renderer's-invoke-record] delta(AgentInvokeEventFrom) == 1 && lastarg(AgentInvokeEventFrom, 0) == s.invoke
 //@   ensures [that-event-is-what-is-serialised] r0 == nil ==> delta(JSONMarshalled) == 1 && lastarg(JSONMarshalled, 0) == iface(lastret(AgentInvokeEventBuilt))
+// C01: the runtime's invocation headers are exactly the fields of the Invoke record
+//@ event HdrRequestID = call net/http.(Header).Set when a1 == "Lambda-Runtime-Aws-Request-Id"
+//@ event HdrClientContext = call net/http.(Header).Set when a1 == "Lambda-Runtime-Client-Context"
+//@ event HdrFunctionArn = call net/http.(Header).Set when a1 == "Lambda-Runtime-Invoked-Function-Arn"
+//@ event HdrDeadline = call net/http.(Header).Set when a1 == "Lambda-Runtime-Deadline-Ms"
+//@ event InvokeHeadersRendered = call rapi/rendering.renderInvokeHeaders
+//@ func renderInvokeHeaders$1
+//@   ensures [sets-exactly-this-header-when-not-empty] delta(HdrRequestID) == ite(value != "" && key == "Lambda-Runtime-Aws-Request-Id", 1, 0) && delta(HdrClientContext) == ite(value != "" && key == "Lambda-Runtime-Client-Context", 1, 0) && delta(HdrFunctionArn) == ite(value != "" && key == "Lambda-Runtime-Invoked-Function-Arn", 1, 0) && delta(HdrDeadline) == ite(value != "" && key == "Lambda-Runtime-Deadline-Ms", 1, 0)
+//@   ensures [with-this-value] (delta(HdrRequestID) == 1 ==> lastarg(HdrRequestID, 2) == value) && (delta(HdrClientContext) == 1 ==> lastarg(HdrClientContext, 2) == value) && (delta(HdrFunctionArn) == 1 ==> lastarg(HdrFunctionArn, 2) == value) && (delta(HdrDeadline) == 1 ==> lastarg(HdrDeadline, 2) == value)
 //@ func renderInvokeHeaders
 //@   modifies httpOut
+//@   ensures [request-id] delta(HdrRequestID) == ite(invokeID != "", 1, 0) && (invokeID != "" ==> lastarg(HdrRequestID, 2) == invokeID)
+//@   ensures [client-context] delta(HdrClientContext) == ite(clientContext != "", 1, 0) && (clientContext != "" ==> lastarg(HdrClientContext, 2) == clientContext)
+//@   ensures [function-arn] delta(HdrFunctionArn) == ite(invokedFunctionArn != "", 1, 0) && (invokedFunctionArn != "" ==> lastarg(HdrFunctionArn, 2) == invokedFunctionArn)
+//@   ensures [deadline] delta(HdrDeadline) == ite(deadlineMs != "", 1, 0) && (deadlineMs != "" ==> lastarg(HdrDeadline, 2) == deadlineMs)
+//@   ensures [status-ok] ghost(httpStatus) == 200 && ghost(httpStatusWriter) == ref(writer)
 
 //@ const interop.MaxPayloadSize == 6*1024*1024 + 100
 
@@ -108,5 +122,6 @@ package rendering
 
 //@ func (*InvokeRenderer).RenderRuntimeEvent
 //@   modifies renderOut
+//@   ensures [headers-from-the-invoke-record] delta(InvokeHeadersRendered) <= 1 && (r0 == nil ==> delta(InvokeHeadersRendered) == 1) && (delta(InvokeHeadersRendered) == 1 ==> lastarg(InvokeHeadersRendered, 0) == writer && lastarg(InvokeHeadersRendered, 1) == s.invoke.ID && lastarg(InvokeHeadersRendered, 3) == s.invoke.ClientContext && lastarg(InvokeHeadersRendered, 5) == s.invoke.InvokedFunctionArn)
 //@   ensures [payload-delivered] s.invoke.Payload != nil && old(gm(bufLen, s.requestBuffer)) == 0 && readerLen(s.invoke.Payload) <= interop.MaxPayloadSize && r0 == nil ==> ghost(httpLastContent) == readerContent(s.invoke.Payload) && ghost(httpLastLen) == readerLen(s.invoke.Payload) && ghost(httpLastWriter) == ref(writer)
 //@   ensures [payload-cut] s.invoke.Payload != nil && old(gm(bufLen, s.requestBuffer)) == 0 && r0 == nil ==> ghost(httpLastContent) == takeContent(readerContent(s.invoke.Payload), interop.MaxPayloadSize) && ghost(httpLastLen) <= interop.MaxPayloadSize
